@@ -18,14 +18,14 @@ CHECKS = {
 	'C01': dict(
 		category='exploration',
 		technique='exhaustive short strings x small specs + Hypothesis fragment-built sequences vs a definitional both-strand k-mer finder (reference model)',
-		text='Every string up to length 6 (quick) / 8 (thorough) over two 4-letter alphabets for 18 (k,prefix) specs is compared with a definitional scan of both strands, which settles off-by-one errors in either search bound and the reverse slice for short inputs completely; the KmerSpec object is reached in eight legal ways (prefix in upper / lower / mixed case, str / bytes / bytearray / Bio.Seq, k as a NumPy integer, pickled copy); generated multi-sequence inputs (arbitrary bytes, overlapping/self-overlapping/palindromic prefixes up to 12 nt, hits flush with either end, k up to 32) are run through all four input types and all accumulators and compared value-for-value, dtype and order; find_kmers matches are compared with the definitional occurrences; whitespace inside a sequence counts as any other non-ACGT character (it is never removed so that its flanks join); 3 cases in 5 are preceded by calls that fail part-way, which must leave no trace.',
+		text='Every string up to length 6 (quick) / 8 (thorough) over two 4-letter alphabets for 18 (k,prefix) specs is compared with a definitional scan of both strands, which settles off-by-one errors in either search bound and the reverse slice for short inputs completely; the KmerSpec object is reached in eight legal ways (prefix in upper / lower / mixed case, str / bytes / bytearray / Bio.Seq, k as a NumPy integer, pickled copy); one-shot iterables (generator, map, iter) together with explicit accumulators; generated multi-sequence inputs (arbitrary bytes, overlapping/self-overlapping/palindromic prefixes up to 12 nt, hits flush with either end, k up to 32) are run through all four input types and all accumulators and compared value-for-value, dtype and order; find_kmers matches are compared with the definitional occurrences; whitespace inside a sequence counts as any other non-ACGT character (it is never removed so that its flanks join); 3 cases in 5 are preceded by calls that fail part-way, which must leave no trace.',
 		note='Trusts vlib/refmodel/kmer.py (literal reverse-complement strand, Python-int base-4 code). Dense accumulator only for k<=12 (4^k bytes). Native encoders tested as the existing C translation.',
 		design='DESIGN.md §4 C01',
 	),
 	'C02': dict(
 		category='exploration',
 		technique='exhaustive subset pairs x 36 dtype pairs + Hypothesis-generated boundary-straddling sets vs exact integer ratio rounded once to binary32 (bit compare)',
-		text='All ordered pairs of subsets of a 6/8-element universe in all 36 dtype combinations, plus generated pairs (patterns: equal, disjoint, nested, interleaved, same last, prefix, empty; universes straddling 2^15/2^16/2^31/2^32/2^63 and ending at the top of the wider type; universes whose values alias each other modulo 2^16 / 2^32; sets up to 3000 elements and size-skewed pairs (one set >= 4096, the other <= 1/64 of it, values above 2^53); strided views; the other NumPy names of the 64-bit types (long long: equal dtype, distinct scalar type); both argument orders) are compared bit-for-bit with an integer-arithmetic round-half-even oracle; jaccard() must be one minus that distance.',
+		text='All ordered pairs of subsets of a 6/8-element universe in all 36 dtype combinations, plus generated pairs (patterns: equal, disjoint, nested, interleaved, same last, prefix, empty; universes straddling 2^15/2^16/2^31/2^32/2^63 and ending at the top of the wider type; universes whose values alias each other modulo 2^16 / 2^32; sets up to 3000 elements and size-skewed pairs (one set >= 4096, the other <= 1/64 of it, values above 2^53); strided views; the other NumPy names of the 64-bit types (long long: equal dtype, distinct scalar type); byte-swapped copies, which may be refused but must never give another value; both argument orders) are compared bit-for-bit with an integer-arithmetic round-half-even oracle; jaccard() must be one minus that distance.',
 		note='Trusts vlib/refmodel/jaccard.py. Sets >= 2^24 elements are not built. Signed arrays hold non-negative values only (documented precondition).',
 		design='DESIGN.md §4 C02',
 	),
@@ -39,21 +39,21 @@ CHECKS = {
 	'C20': dict(
 		category='exploration',
 		technique='exhaustive index expressions (n<=4/6) over 3 container types + Hypothesis-generated expressions, equality pairs and list-mutation histories vs a Python list model',
-		text='Every int index, slice (all start/stop/step over a small range incl. step 0), index list of length <=3 and boolean mask is evaluated on SignatureArray, SignatureList and file-backed HDF5Signatures of length 0..4 (quick) / 0..6 (thorough) and compared with what a plain list of the arrays gives (selection, error class, k-mer spec, dtype, caller index array unmodified); longer collections in further container variants (int32 / uint64 bounds, windows with bounds[0] != 0, views, gzip-compressed files), ill-typed indices, unsigned indices up to 2^64-1, cross-container equality pairs (incl. reverse-complement prefixes) and 50-step SignatureList mutation histories (model-based, including sub-collections sliced off earlier, which must stay independent lists) are generated.',
+		text='Every int index, slice (all start/stop/step over a small range incl. step 0), index list of length <=3 and boolean mask is evaluated on SignatureArray, SignatureList and file-backed HDF5Signatures of length 0..4 (quick) / 0..6 (thorough) and compared with what a plain list of the arrays gives (selection, error class, k-mer spec, dtype, caller index array unmodified); longer collections in further container variants (int32 / uint64 bounds, windows with bounds[0] != 0, views, gzip-compressed files), ill-typed indices, unsigned indices up to 2^64-1, cross-container equality pairs (incl. reverse-complement prefixes) range objects (every start / stop / step over the small range) and 50-step SignatureList mutation histories (model-based, including sub-collections sliced off earlier, which must stay independent lists) are generated.',
 		note='Oracle is a Python list; view/copy semantics are not asserted. A Python bool as scalar index is excluded (list and NumPy semantics disagree). Two genuine defects found and repaired (see KNOWN_FINDINGS.txt).',
 		design='DESIGN.md §4 C20',
 	),
 	'C05': dict(
 		category='exploration',
 		technique='Hypothesis-generated collections x containers x chunk sizes x index selections x out buffers x thread counts, repeated runs; differential oracle: pairwise jaccarddist + exact rational distance per cell (bit compare)',
-		text='Every cell of jaccarddist_array / jaccarddist_matrix / jaccarddist_pairwise (square and condensed) is compared bit-for-bit with the two-signature distance and, for sets <= 400 elements, with the exact rational value rounded once to binary32, over generated collections (empty signatures, duplicates, 5000-element signatures) held in SignatureArray (incl. int32 bounds and zero-copy windows whose bounds do not start at 0), SignatureList, plain list and HDF5 files, values aliasing modulo 2^16/2^32 under mixed dtypes, index arrays of several integer dtypes, with chunk sizes 1..n+1, permuted/repeated/empty index selections, fresh and strided out buffers, and 1..16 OpenMP threads, each call repeated 3x (quick) / 20x (thorough); a sample of cases is re-run in a fresh interpreter whose OpenMP runtime is configured through the environment (OMP_THREAD_LIMIT below the requested thread count, OMP_DYNAMIC, OMP_SCHEDULE, OMP_NUM_THREADS, OMP_PROC_BIND).',
+		text='Every cell of jaccarddist_array / jaccarddist_matrix / jaccarddist_pairwise (square and condensed) is compared bit-for-bit with the two-signature distance and, for sets <= 400 elements, with the exact rational value rounded once to binary32, over generated collections (empty signatures, duplicates, 5000-element signatures) held in SignatureArray (incl. int32 / unsigned / big-endian bounds and zero-copy windows whose bounds do not start at 0), SignatureList, plain list and HDF5 files, values aliasing modulo 2^16/2^32 under mixed dtypes, index arrays of several integer dtypes, with chunk sizes 1..n+1, permuted/repeated/empty index selections, fresh and strided out buffers, and 1..16 OpenMP threads, each call repeated 3x (quick) / 20x (thorough); a sample of cases is re-run in a fresh interpreter whose OpenMP runtime is configured through the environment (OMP_THREAD_LIMIT below the requested thread count, OMP_DYNAMIC, OMP_SCHEDULE, OMP_NUM_THREADS, OMP_PROC_BIND).',
 		note='The OpenMP dynamic schedule cannot be owned from Python: thread interleavings are sampled (thread counts x repeats), not enumerated, so a rare data race can be missed (a seeded shared-variable race is caught within the quick budget). OMP_WAIT_POLICY=passive is set for the workers.',
 		design='DESIGN.md §4 C05',
 	),
 	'C12': dict(
 		category='exploration',
 		technique='Hypothesis-generated signature collections: dump/load round trip vs a list model; generated foreign byte strings and foreign HDF5 files must be refused',
-		text='Round trips over k 1..32 (all four index widths, values up to 4^k-1), empty/all-empty signatures, both write paths, string/int64/uint64 IDs, Unicode metadata with nested JSON extra and every compression filter, stored integer types wider than / signed variants of the k-mer spec type, payloads above 64 Ki values, overwritten paths, pathlib paths, wrappers around already annotated wrappers (the outer labels count) and collections loaded from another signature file are compared field by field and index expression by index expression with a Python list model; generated non-signature files (empty, text, FASTA, random, gzip, short prefixes, HDF5 files of other kinds incl. signature-shaped files lacking only the marker, files carrying an HDF5 superblock at a non-zero offset such as a tar archive of a signature file) must raise SignaturesFileError, and corrupt HDF5-magic files some exception.',
+		text='Round trips over k 1..32 (all four index widths, values up to 4^k-1), empty/all-empty signatures, both write paths, string/int64/uint64 IDs (also strings that all look like numbers), Unicode metadata with nested JSON extra and every compression filter, stored integer types wider than / signed variants of the k-mer spec type, payloads above 64 Ki values, overwritten paths, pathlib paths, wrappers around already annotated wrappers (the outer labels count) and collections loaded from another signature file are compared field by field and index expression by index expression with a Python list model; generated non-signature files (empty, text, FASTA, random, gzip, short prefixes, HDF5 files of other kinds incl. signature-shaped files lacking only the marker, files carrying an HDF5 superblock at a non-zero offset such as a tar archive of a signature file) must raise SignaturesFileError, and corrupt HDF5-magic files some exception.',
 		note='Strings contain no NUL / lone surrogates (not storable in HDF5 vlen strings). h5py/HDF5 are part of the system under test only through gambit\'s use of them.',
 		design='DESIGN.md §4 C12',
 	),
@@ -74,14 +74,14 @@ CHECKS = {
 	'C13': dict(
 		category='exploration',
 		technique='exhaustive enumeration of task completion orders (n<=5/6) through a controlled executor + Hypothesis-generated real-pool runs and injected unreadable files; oracle: per-file single result in input order',
-		text='All n! completion orders for n <= 5 (quick) / 6 (thorough) are imposed through the public executor= argument by an executor that completes task perm[i] only after perm[i-1] was collected; plus the all-done-before-collection schedule, real thread/process pools with worker counts 1..16 and size skew, sequential mode, the `signatures create -c N` command line, a reused caller-owned thread pool, earlier failing calls in the same process, and a fault (missing file, directory, truncated gzip, invalid UTF-8, junk) at a drawn position. Result must be one signature per file in input order equal to the single-file result and to the definitional signature of the file content; a supplied executor is left open; an unreadable file fails the whole call.',
+		text='All n! completion orders for n <= 5 (quick) / 6 (thorough) are imposed through the public executor= argument by an executor that completes task perm[i] only after perm[i-1] was collected; plus the all-done-before-collection schedule, real thread/process pools with worker counts 1..16 and size skew, sequential mode, the `signatures create -c N` command line, a reused caller-owned thread pool, earlier failing calls in the same process, a fault (missing file, directory, truncated gzip, invalid UTF-8, junk) or a well-formed file without sequence data (empty, header only, empty gzip member) at a drawn position. Result must be one signature per file in input order equal to the single-file result and to the definitional signature of the file content; a supplied executor is left open; an unreadable file fails the whole call.',
 		note='Completion order is owned only for the ordered/instant executors; with real pools the OS schedules (sampled with skewed file sizes).',
 		design='DESIGN.md §4 C13',
 	),
 	'C03': dict(
 		category='exploration',
 		technique='Hypothesis-generated forests x genome assignments x binary32 distance vectors (thresholds exactly at / one ulp off occurring distances) vs a dict model of the classification rules; metamorphic monotonicity',
-		text='classify() in default mode, GenomeMatch and reportable_taxon are compared with a dict model (closest at minimum distance, first lineage taxon with threshold >= d, primary == closest iff predicted, next = nearest threshold-bearing taxon below the prediction / topmost if none, first reportable ancestor) over generated forests with threshold-less, non-monotone and unreportable taxa, genomes on internal taxa and distances exactly equal to thresholds or within 1e-8 of each other without being equal; increasing distance may only keep or coarsen a prediction. End-to-end worlds (query() on a materialised database) are covered by the world-level cases.',
+		text='classify() in default mode, GenomeMatch and reportable_taxon are compared with a dict model (closest at minimum distance, first lineage taxon with threshold >= d, primary == closest iff predicted, next = nearest threshold-bearing taxon below the prediction / topmost if none, first reportable ancestor) over generated forests with threshold-less, non-monotone and unreportable taxa, genomes on internal taxa and distances exactly equal to thresholds or within 1e-8 of each other without being equal; increasing distance may only keep or coarsen a prediction. End-to-end worlds (query() on a materialised database, also on a file that holds a second genome set over the same genomes) are covered by the world-level cases.',
 		note='Comparison d <= threshold is modelled exactly in binary64 (NumPy 1.26 semantics). One genuine defect found and repaired (next_taxon with a threshold-less genome taxon).',
 		design='DESIGN.md §4 C03',
 	),
@@ -102,7 +102,7 @@ CHECKS = {
 	'C09': dict(
 		category='exploration',
 		technique='Hypothesis-generated tie-heavy distance rows and tie-heavy databases vs sort-by-(distance, index) oracle; subprocess differential across NumPy CPU-dispatch settings and core counts',
-		text='closest_genomes is compared with the (distance, reference order) prefix for generated rows with heavy ties (lengths up to 1000, all report_closest shapes), for generated databases with identical/equidistant genomes (one QueryParams object reused across databases of different size must come back unchanged; the JSON and CSV exports of every such result are parsed and the distance and matched taxon of each listed entry compared with the model), and the JSON/CSV outputs of real `gambit query` subprocesses are compared across NPY_DISABLE_CPU_FEATURES settings and -c values (byte-identical lists, CSV and JSON name the same closest genome).',
+		text='closest_genomes is compared with the (distance, reference order) prefix for generated rows with heavy ties (lengths up to 1000, all report_closest shapes), for generated databases with identical/equidistant genomes (optionally sharing their file with a second genome set; one QueryParams object reused across databases of different size must come back unchanged; the JSON and CSV exports of every such result are parsed and the distance and matched taxon of each listed entry compared with the model), and the JSON/CSV outputs of real `gambit query` subprocesses are compared across NPY_DISABLE_CPU_FEATURES settings and -c values (byte-identical lists, CSV and JSON name the same closest genome).',
 		note='CPU dispatch is varied on this sandbox CPU only. One genuine defect found and repaired (unstable argsort).',
 		design='DESIGN.md §4 C09',
 	),
@@ -130,7 +130,7 @@ CHECKS = {
 	'C11': dict(
 		category='exploration',
 		technique='Hypothesis-generated real and synthetic QueryResults x 3 exporters; parse-back / field-by-field comparison with the results object, cross-format agreement, archive round trip (same and fresh session)',
-		text='Result sets produced by real strict/non-strict queries on generated worlds and synthetic result sets assembled from generated ClassifierResults (arbitrary Unicode labels incl. commas/quotes/LF/CRLF, warnings, errors, missing files, drawn params incl. chunksize None, naive and time-zone-aware timestamps and extra JSON) are exported as CSV, JSON and archive; CSV is parsed back cell by cell, JSON must be strict JSON carrying the same data and agree with the CSV, and the archive must read back equal (deep comparison and ==) on the same and on a fresh session; exports are written to streams and, with exporter objects re-used for the life of the worker, to real file paths that are fresh or hold a longer older export (labels derived from undecodable file names included).',
+		text='Result sets produced by real strict/non-strict queries on generated worlds (optionally on a file holding a second genome set over the same genomes) and synthetic result sets assembled from generated ClassifierResults (arbitrary Unicode labels incl. commas/quotes/LF/CRLF, warnings, errors, missing files, drawn params incl. chunksize None, naive and time-zone-aware timestamps and extra JSON) are exported as CSV, JSON and archive; CSV is parsed back cell by cell, JSON must be strict JSON carrying the same data and agree with the CSV, and the archive must read back equal (deep comparison and ==) on the same and on a fresh session; exports are written to streams and, with exporter objects re-used for the life of the worker, to real file paths that are fresh or hold a longer older export (labels derived from undecodable file names included).',
 		note='Lone CR is excluded from generated text (csv.writer with LF terminator cannot round-trip it; "newlines" read as LF/CRLF). Labels are str. One genuine defect found and repaired (archive with chunksize None unreadable).',
 		design='DESIGN.md §4 C11',
 	),
@@ -144,7 +144,7 @@ CHECKS = {
 	'C18': dict(
 		category='exploration',
 		technique='model-based generation of command/library-call histories (Hypothesis lists of steps interpreted against a fresh database copy); invariant after every step: sha256 of both files, nothing flushed, commit raises',
-		text='Histories of 5..25 steps mixing every read-side command (query in all channels/formats, dist --use-db, signatures info/create --db-params, tree), failing commands, library queries with handles left open, ORM edits on each default session (attribute change, add, delete) followed by flush / autoflushing query / commit / rollback, and double opens of the signature file are run against a fresh copy of a generated database whose genome file is put into a drawn valid SQLite configuration (default, WAL, WAL with committed transactions still in the -wal file, a hot rollback journal left by a crashed writer, PERSIST, other page size, user_version, an older table layout, extra tables/indexes/views), interleaved with writable sessions on unrelated files and with another holder of an exclusive advisory lock on the signature file; after every step the sha256 and size of the .gdb and .gs must equal their initial values, the edited session\'s own connection must still show the original rows and commit() must have raised.',
+		text='Histories of 5..25 steps mixing every read-side command (query in all channels/formats, dist --use-db, signatures info/create --db-params, tree), failing commands, library queries with handles left open, ORM edits on each default session (attribute change, add, delete) (also one object both edited and deleted) followed by flush / autoflushing query / commit / rollback - none of which may even attempt a write -, and double opens of the signature file are run against a fresh copy of a generated database whose genome file is put into a drawn valid SQLite configuration (default, WAL, WAL with committed transactions still in the -wal file, a hot rollback journal left by a crashed writer, PERSIST, other page size, user_version, an older table layout, extra tables/indexes/views), interleaved with writable sessions on unrelated files and with another holder of an exclusive advisory lock on the signature file; after every step the sha256 and size of the .gdb and .gs must equal their initial values, the edited session\'s own connection must still show the original rows and commit() must have raised.',
 		note='Only the bytes of the two database files are compared. In-process CLI via CliRunner. One genuine defect found and repaired (D10: a write-ahead log beside the genome file was checkpointed into it by read-side use).',
 		design='DESIGN.md §4 C18',
 	),
@@ -191,7 +191,7 @@ def main():
 			name='pbt-harness',
 			path='/verif/run.py',
 			serves_properties=[c['property_id'] for c in checks],
-			kind_free_text='Hypothesis 6.168 generators + complete enumeration of small finite sub-domains, sharded over 16 worker processes; explicit reference-model / round-trip / metamorphic oracles per property; shrunk failures become replay files',
+			kind_free_text='Hypothesis 6.168 generators + complete enumeration of small finite sub-domains, sharded over 16 worker processes; a hash-selected sample of the generated cases of every check is run again in a fresh interpreter started with python -O / -OO, another string-hash seed or development mode; explicit reference-model / round-trip / metamorphic oracles per property; shrunk failures become replay files',
 		)],
 		checks=checks,
 		notes='Every check: exit 0 = held on everything explored; exit 1 + "VIOLATION property=<id> replay=<path>"; exit 2 = harness error (never a VIOLATION). Seeds: VERIF_SEED. Known findings: /verif/KNOWN_FINDINGS.txt. Sensitivity: /verif/mutants (about 140 mutants incl. native and multi-site ones) and /verif/seeded (80 independently written breaking changes in four rounds; DESIGN.md sections 9-10 record which check catches which).',
